@@ -102,6 +102,7 @@ class Ctx:
         cov.setdefault("samples", [])
         cov["tlc_runs"] = self.tlc_runs
         cov["known_findings_hit"] = self.known_hits
+        cov["violation_classes"] = {k: len(v) for k, v in shown.items()}
         if self.notes:
             cov["notes"] = self.notes
         if not cov["samples"]:
